@@ -22,7 +22,7 @@ HERE = os.path.dirname(os.path.abspath(__file__))
 sys.path.insert(0, HERE)
 import refmodel  # noqa: E402
 
-STAGES = ["py.kmers", "py.min", "py.oligo", "py.header", "py.cgr", "py.batch", "py.lifetime", "py.acgt", "py.models"]
+STAGES = ["py.kmers", "py.min", "py.oligo", "py.header", "py.cgr", "py.batch", "py.lifetime", "py.acgt", "py.large", "py.models"]
 
 
 # ------------------------------------------------------------------------------------------------
@@ -41,6 +41,26 @@ UNICODE_POOL = [
 CONFUSABLE = [chr(0x100 * hi + ord(c)) for hi in (1, 2, 0x1F3, 0x4E) for c in "ACGTUacgtu"] + \
              [chr(0x10000 + 0x100 * hi + ord(c)) for hi in (0xF3, 0x02) for c in "ACGTacgt"]
 UNICODE_POOL = UNICODE_POOL + CONFUSABLE
+
+
+def _casemap_specials():
+    """code points whose upper/lower/title form has a different UTF-8 length or turns into ASCII letters:
+    a binding that case-normalises the *string* (instead of leaving the bytes alone) shifts positions or
+    even injects real bases"""
+    out = []
+    for cp in range(0x80, 0x1F000):
+        if 0xD800 <= cp <= 0xDFFF:
+            continue
+        c = chr(cp)
+        for f in (c.upper(), c.lower(), c.casefold()):
+            if f != c and (len(f.encode("utf-8")) != len(c.encode("utf-8")) or any(ch in "ACGTUacgtu" for ch in f)):
+                out.append(c)
+                break
+    return out
+
+
+CASEMAP = _casemap_specials()
+UNICODE_POOL = UNICODE_POOL + CASEMAP[:: max(1, len(CASEMAP) // 60)]
 
 
 def gen_string(rng, max_len=200):
@@ -165,7 +185,7 @@ def short(s, n=120):
 def child_kmers(pk, rng, n, R, ktmon, work):
     cases = []
     for i in range(n):
-        cls, s = gen_string(rng)
+        cls, s = gen_string(rng) if i % 5 else directed_special(rng)
         k = (i % 31) + 1
         cases.append({"op": "kmers", "seq": s, "k": k, "_cls": cls})
     core = core_eval(ktmon, work, cases, "kmers")
@@ -195,10 +215,16 @@ def child_kmers(pk, rng, n, R, ktmon, work):
             R.sample({"seq": short(s), "k": k, "tuples": len(got)})
 
 
+def directed_special(rng, max_len=80):
+    base = gen_nuc(rng, max_len) or "ACGTACGT"
+    p = rng.randrange(len(base) + 1)
+    return "special-casemap", base[:p] + rng.choice(CASEMAP + CONFUSABLE) + base[p:]
+
+
 def child_min(pk, rng, n, R, ktmon, work):
     cases = []
     for i in range(n):
-        cls, s = gen_string(rng, 160)
+        cls, s = gen_string(rng, 160) if i % 5 else directed_special(rng)
         m = (i % 31) + 1
         w = m + rng.choice([0, 1, rng.randint(0, 20), rng.randint(0, 60)])
         cases.append({"op": "min", "seq": s, "w": w, "m": m, "_cls": cls})
@@ -231,7 +257,7 @@ def child_min(pk, rng, n, R, ktmon, work):
 def child_oligo(pk, rng, n, R, ktmon, work):
     cases = []
     for i in range(n):
-        cls, s = gen_string(rng, 300)
+        cls, s = gen_string(rng, 300) if i % 6 else directed_special(rng, 200)
         k = (i % 8) + 1 if i % 5 == 0 else (i % 6) + 1
         norm = rng.random() < 0.5
         cases.append({"op": "oligo", "seq": s, "k": k, "norm": norm, "_cls": cls})
@@ -459,6 +485,46 @@ def child_lifetime(pk, rng, n, R, ktmon, work):
             R.sample({"seq": short(s0, 60), "k": k, "w": w, "m": m, "kmers": len(exp_k), "runs": len(exp_m)})
 
 
+def child_large(pk, rng, n, R, ktmon, work):
+    """strings with more than 2^24 windows (accumulator width); expected values are analytic"""
+    for i in range(n):
+        N = (1 << 24) + rng.randint(1000, 300000)
+        M = rng.randint(1, 200000)
+        s = "A" * N + "C" * M
+        for k in (1, 2):
+            oc = pk.OligoComputer(k)
+            header = list(oc.get_header())
+            if k == 1:
+                exp = {"A": N, "C": M}
+            else:
+                exp = {"AA": N - 1, "AC": 1, "CC": M - 1}
+            total = sum(exp.values())
+            R.case(True, ("large", N, M, k))
+            case = {"seq": "A*%d + C*%d" % (N, M), "k": k, "windows": total}
+            try:
+                raw = oc.vectorise_one(s, False)
+                nrm = oc.vectorise_one(s, True)
+                bat = oc.vectorise_batch([s, "ACGT"], True)
+            except BaseException as e:  # noqa: BLE001
+                R.violate("py.large.exception", "raised %r" % (e,), case)
+                continue
+            ok = True
+            for j, name in enumerate(header):
+                e = exp.get(name, 0)
+                if raw[j] != float(e) or abs(nrm[j] - e / total) > 1e-12 or abs(bat[0][j] - e / total) > 1e-12:
+                    R.violate("py.large.value", "column %s: raw %r normalised %r batch %r, expected %d and %r" % (name, raw[j], nrm[j], bat[0][j], e, e / total), case)
+                    ok = False
+                    break
+            if ok:
+                R.sample(case)
+        # iterators on a long string: count items only (20M tuples would be too slow to list), sample the tail
+        it = pk.KmerGenerator("A" * 70000 + "N" + "C" * 70000, 31)
+        cnt = sum(1 for _ in it)
+        R.case(True, ("large-iter", i))
+        if cnt != 2 * (70000 - 30):
+            R.violate("py.large.kmers", "%d k-mers from A*70000 N C*70000 at k=31, expected %d" % (cnt, 2 * (70000 - 30)), {"k": 31})
+
+
 def child_acgt(pk, rng, n, R, ktmon, work):
     for i in range(n):
         k = (i % 31) + 1
@@ -519,7 +585,7 @@ def child_models(pk, rng, n, R, ktmon, work):
 
 
 CHILDREN = {"py.kmers": child_kmers, "py.min": child_min, "py.oligo": child_oligo, "py.header": child_header,
-            "py.cgr": child_cgr, "py.batch": child_batch, "py.lifetime": child_lifetime, "py.acgt": child_acgt,
+            "py.cgr": child_cgr, "py.batch": child_batch, "py.lifetime": child_lifetime, "py.acgt": child_acgt, "py.large": child_large,
             "py.models": child_models}
 
 # (groups, cases per group) per tier
@@ -532,6 +598,7 @@ SIZES = {
     "py.batch": {"quick": (4, 5), "thorough": (9, 6)},
     "py.lifetime": {"quick": (4, 200), "thorough": (8, 1200)},
     "py.acgt": {"quick": (1, 400), "thorough": (2, 5000)},
+    "py.large": {"quick": (1, 1), "thorough": (2, 2)},
     "py.models": {"quick": (2, 600), "thorough": (8, 4000)},
 }
 
